@@ -36,7 +36,7 @@ def shard(ctx):
     rng = ctx.rng
     P = repo.P()
     T = rp.table()
-    npairs = ctx.scale(24000, 1200000)
+    npairs = ctx.scale(96000, 1200000)
     plug_pool = gp.concrete_pool(rng, 60, 2, syms=('a', 'b'))
 
     def viol(mech, summary, **w):
